@@ -63,10 +63,17 @@ def showRaw : Option Entry → String
 def showQueue (q : List UEntry) : String :=
   orDash (";".intercalate (q.map fun e => s!"{e.unlock},{e.nonce},{e.locked},{e.unlocked}"))
 
-def showUser (s : St) (u : Nat) : String :=
+/-- the harness id of the FARM contract account (a real SC account there; in the model every address
+    below `SCBASE` that is not a user is an ordinary holder / caller / energy address) -/
+def FARM : Nat := 9
+
+/-- one account: base balance, raw stored entry, view entry, locked row, wrapped row, unbond queue -/
+def showAcct (name : String) (s : St) (u : Nat) : String :=
   let v := s.view u
-  s!"u{u}={s.base u}/{showRaw (s.energy u)}/{v.E},{v.T},{v.amount}/" ++
+  s!"{name}={s.base u}/{showRaw (s.energy u)}/{v.E},{v.T},{v.amount}/" ++
   s!"{showRow (s.bal u) s.nonces.length}/{showRow (s.wbal u) s.wnonces.length}/{showQueue (s.queue u)}"
+
+def showUser (s : St) (u : Nat) : String := showAcct s!"u{u}" s u
 
 /-- insertion sort of the pending transfers by (receiver, sender) -/
 def insX (x : Xfer) : List Xfer → List Xfer
@@ -96,7 +103,8 @@ def showState (s : St) (n : Nat) : String :=
   s!"tr={showRow (s.bal TRANSFER) nn} wr={showRow (s.bal WRAPPER) nn} x={showXfers s.xfers} " ++
   s!"sl={showLast s.sendLast n} rl={showLast s.recvLast n} sce={sce} " ++
   s!"bs={s.baseSupply} ci={s.circ} pp={s.pendingPenalty} pb={s.penBurned} co={s.collected} " ++
-  s!"mu={s.mintUnlock} me={s.mintEarly} bl={s.burnLock} bc={s.burnCancel} vl={s.virtLocked}"
+  s!"mu={s.mintUnlock} me={s.mintEarly} bl={s.burnLock} bc={s.burnCancel} vl={s.virtLocked} " ++
+  showAcct "farm" s FARM
 
 def initOf (ws : List String) : St × Nat :=
   let n := (kvNat ws "users").getD 3
